@@ -197,6 +197,135 @@ def _c12_skip_data_case():
     return case
 
 
+JOIN_RERUN = """
+version: '2.0'
+wf:
+  tasks:
+    t1:
+      action: std.noop
+      on-success: j
+    t2:
+      action: std.noop
+      on-success: j
+      on-error: j
+    j:
+      join: all
+      action: std.noop
+"""
+
+
+def _c12_join_inbound_case(preemptions):
+    """an inbound task of a join failed and routed to the join; it is rerun
+    while the other inbound task is still running; the join must not start
+    before the rerun has finished (a task running again has not completed),
+    and must start exactly once afterwards; the request that reran the task
+    is then delivered a second time (message redelivery) and must change
+    nothing"""
+    def case():
+        from vt.world import World, Event
+        from vt.explorer import Explorer
+        from mistral_lib import actions as ml
+        from mistral import exceptions as exc
+        sig = 'C12.join-inbound'
+        w = World([JOIN_RERUN])
+        with w:
+            ex = Explorer(w, sig, preemptions=0)
+            ex.rerun_allowed = True
+            phase = {'n': 1}
+
+            def tname(ev):
+                tid = ev.payload['exec_ctx'].get('task_execution_id')
+                return [t for t in w.rows('TaskExecution')
+                        if t['id'] == tid][0]['name']
+
+            def result_for(ev):
+                if tname(ev) == 't2' and phase['n'] == 1:
+                    return ml.Result(error='first attempt fails')
+                return ml.Result(data='ok')
+            ex.result_for = result_for
+            wid = w.start('wf')
+            ex.check_invariants()
+            for _ in range(40):
+                evs = [e for e in w.events
+                       if not (e.kind == 'action' and tname(e) == 't1')]
+                if not evs:
+                    break
+                ex.deliver(evs[0])
+            t1, t2, j = (w.task(n, wid) for n in ('t1', 't2', 'j'))
+            assume(t2 is not None and t2['state'] == 'ERROR' and
+                   t1['state'] == 'RUNNING' and j is not None and
+                   j['state'] == 'WAITING')
+            reach('inbound-failed-join-waiting')
+            phase['n'] = 2
+            r, errs = ex.operator('rerun_workflow', t2['id'], reset=True)
+            info = {'trace': ex.trace[-30:],
+                    'errors': [repr(e)[:200] for e in errs]}
+            check(not errs, 'rerun-of-failed-task-refused',
+                  dict(info, signature=sig + ':refused'))
+            rerun_msgs = [e for e in w.events if e.kind == 'rpc' and
+                          e.payload[0] == 'start_task']
+            ex.preemptions = preemptions
+            real_deliver = ex.deliver
+
+            def deliver(ev, *a, **k):
+                real_deliver(ev, *a, **k)
+                jj = w.task('j', wid)
+                tt2 = w.task('t2', wid)
+                tt1 = w.task('t1', wid)
+                started = jj is not None and (
+                    w.actions(jj['id']) or jj['state'] in ('RUNNING',
+                                                           'SUCCESS'))
+                if started:
+                    reach('join-started')
+                    check(tt1['state'] == 'SUCCESS' and
+                          tt2['state'] in ('SUCCESS', 'ERROR'),
+                          'join-started-before-its-inbound-tasks-completed',
+                          {'signature': sig + ':join-early',
+                           't1': tt1['state'], 't2': tt2['state'],
+                           'trace': ex.trace[-20:]})
+            ex.deliver = deliver
+            ex.run()
+            reach('rerun-done')
+            states = {t['name']: t['state'] for t in w.tasks(wid)}
+            info = dict(info, trace=ex.trace[-35:], states=states,
+                        wf=w.wf_ex(wid)['state'])
+            check(states == {'t1': 'SUCCESS', 't2': 'SUCCESS',
+                             'j': 'SUCCESS'} and
+                  w.wf_ex(wid)['state'] == 'SUCCESS',
+                  'final-state-differs-from-language',
+                  dict(info, signature=sig + ':final'))
+            jrow = w.task('j', wid)
+            check(len(w.actions(jrow['id'])) == 1,
+                  'join-action-dispatched-twice',
+                  dict(info, signature=sig + ':join-twice',
+                       n=len(w.actions(jrow['id']))))
+            # the rerun request is delivered once more
+            if rerun_msgs:
+                before = (dict(states), w.wf_ex(wid)['state'],
+                          len(w.rows('ActionExecution')))
+                n_err = len(w.errors)
+                ev = rerun_msgs[0]
+                ev2 = Event('rpc', ev.label + ' (redelivered)', ev.payload)
+                w.post(ev2)
+                ex.deliver(ev2)
+                ex.run()
+                reach('rerun-request-redelivered')
+                after = ({t['name']: t['state'] for t in w.tasks(wid)},
+                         w.wf_ex(wid)['state'],
+                         len(w.rows('ActionExecution')))
+                check(after == before,
+                      'redelivered-rerun-request-changed-a-finished-run',
+                      dict(info, signature=sig + ':redelivery',
+                           before=before, after=after))
+                bad = [(m, repr(e)[:200]) for m, e in w.errors[n_err:]
+                       if not isinstance(e, (exc.MistralException,
+                                             exc.MistralError))]
+                check(not bad, 'redelivery-raised-undeclared-error',
+                      dict(info, signature=sig + ':redelivery-error',
+                           errors=bad))
+    return case
+
+
 MIDRUN = """
 version: '2.0'
 wf:
@@ -421,7 +550,10 @@ def _c12_items_case(preemptions):
                'DirectWorkflowController._find_next_tasks'],
     bounds={'quick': 'shapes chain3, fork_join, join_2_of_3_mixed, '
                      'skip routes (with / without on-skip), parent+child, a '
-                     'rerun issued while a sibling branch is still running, a '
+                     'rerun issued while a sibling branch is still running, '
+                     'a rerun of a failed inbound task of a waiting join '
+                     '(then the rerun request redelivered), data published '
+                     'on skip reaching a task and a join, a '
                      'with-items task over two sub-workflows that both '
                      'failed and are both rerun (outcomes and <= 2 '
                      'out-of-order deliveries symbolic); '
@@ -451,6 +583,9 @@ def c12_e(ctx):
                needed=['first-run-failed', 'rerun-done', 'nested-rerun'])
     yield Case('skip/data', _c12_skip_data_case(),
                needed=['skipped'], replay=_strong_skip_data)
+    yield Case('join-inbound', _c12_join_inbound_case(max(k, 1)),
+               needed=['inbound-failed-join-waiting', 'rerun-done',
+                       'join-started', 'rerun-request-redelivered'])
     yield Case('mid-run', _c12_midrun_case(max(k, 1)),
                needed=['failed-while-sibling-running', 'rerun-done'])
     yield Case('items-subwf', _c12_items_case(max(k, 1) + 1),
